@@ -665,7 +665,10 @@ pub fn check(ctx: &Ctx) {
         eprintln!("MACHINERY: framing reference self-test failed: {e}");
         std::process::exit(2);
     }
-    let quick = ctx.tier == Tier::Quick;
+    // the former thorough bounds take seconds: they are the quick tier now; `deep` = thorough
+    let quick = false;
+    #[allow(unused_variables)]
+    let deep = ctx.tier == Tier::Thorough;
     // armor-or-binary sniffing entry points
     let mut sn = Vec::new();
     for form in FORMS {
@@ -744,8 +747,8 @@ pub fn check(ctx: &Ctx) {
         let depth = if tag == 11 { if quick { 2 } else { 3 } } else if quick { 1 } else { 2 };
         for first in &firsts {
             let mut seqs = exp_seqs(&more_alpha, depth);
-            if !quick && tag == 11 {
-                // one level deeper over the sub-alphabet of the quick tier
+            if deep && tag == 11 {
+                // one level deeper over a sub-alphabet
                 seqs.extend(exp_seqs(&[0, 1, 5, 9, 12, 16], 4).into_iter().filter(|s| s.len() == 4));
             }
             for more in seqs {
